@@ -78,7 +78,7 @@ func c17Compare(a, b *RMsg, pushedVia bool) string {
 
 func TestC17(t *testing.T) {
 	V.Rule("lab, metamorphic: generated requests (backend / Route / static-route paths, rich Via, Route and Record-Route lists, extension headers incl. those with compact forms) and responses, plus short dialog histories (INVITE -> response with both tags from the backend -> in-dialog follow-up), each executed twice: as generated and as a restyled twin in which every header name is independently respelled (canonical, compact v f t i l m c e k s o r u a b, upper, lower, random case) and every run of adjacent Via/Route/Record-Route lines is re-laid-out (joined, split, partially joined). Relation: same destination (same endpoint; any backend of the same listen entry), same decoded Via/Route/Record-Route stacks (fresh branch abstracted), same ordered remaining headers up to the harness's own name table, same body, exactly one Content-Length in each, same pinning decision; plus twin learning histories on two identical fresh services (an unroutable request teaches its Via hosts, a later request routed to one of them must be handled the same whether the teaching request was canonical or restyled). non-trivial = the twins differ in the spelling of a header the proxy looks up or in list layout; distinct by the pair")
-	V.Require("pair:learning history", "pair:request", "pair:response", "pair:dialog", "compact Content-Length", "compact Call-ID", "compact Via", "list layout differs", "compact From/To")
+	V.Require("pair:route set towards a refusing tcp hop, joined and one line per entry", "pair:learning history", "pair:request", "pair:response", "pair:dialog", "compact Content-Length", "compact Call-ID", "compact Via", "list layout differs", "compact From/To")
 	svc, err := newStdSvc(stdVariant{Pool: 4, MustRR: [3]string{"", "true", ""}})
 	if err != nil {
 		V.HarnessError(t, "cannot start lab instance: %v", err)
@@ -117,6 +117,24 @@ func TestC17(t *testing.T) {
 		V.ClassIf(la != lb, "list layout differs")
 	}
 
+	rcheck(t, "refusing-hop", V.N(8, 100), func(rt *rapid.T) {
+		s := s
+		obs, ok, err := s.hopOutage(rt, t.Name()+"/refusing-hop", true)
+		if _, lost := err.(labLost); lost {
+			failf(rt, "%v\nhistory: %s", err, obs)
+		} else if err != nil {
+			V.HarnessError(rt, "%v", err)
+		}
+		if !ok {
+			return
+		}
+		V.Class("pair:route set towards a refusing tcp hop, joined and one line per entry")
+		V.NonTrivial("refusing|" + obs.String())
+		V.SampleEvery(10, func() any { return obs })
+		if f := hopTwins(obs); f != "" {
+			failf(rt, "%s", f)
+		}
+	})
 	rcheck(t, "requests", V.N(1200, 10000), func(rt *rapid.T) {
 		rc := s.gRelayRequest(rt, relayOpts{LongLists: true, Paths: []string{"backend", "route", "static"}, MaxVias: 5, MaxRRs: 3, MaxExt: 8, MaxLong: 0, MaxBody: 200, Entries: []int{0, 1}})
 		twin := restyle(rt, "twin", rc.Msg)
